@@ -147,6 +147,17 @@ def scenarios(tier):
                     if order:
                         sc['order'] = order
                     items.append((sc, 1))
+    # (e) every party on a thread of its own (controlled receive threads, application threads) with a blocking driver whose
+    #     frame is on the bus when the call returns (1.0) or at once, the call returning later (0.0): replies are handled
+    #     while the sending call - of the application, the job thread or the receive thread - has not returned yet
+    for ms in sets + [[msg(0x10, 'p2p', 0x20, 9)], [msg(0x10, 'p2p', 0x20, 100)], [msg(0x10, 'bam2', 0x31, 16)]]:
+        for wins in [(1, 1, 1), (2, 3, 255), (255, 255, 255)]:
+            for base in (0.2e-3, 1e-3):
+                for cost in (0.3e-3, 2e-3):
+                    for vis in (0.0, 1.0):
+                        sc = {'dll': DLL, 'stacks': stacks3(*wins), 'base_lat': base, 'send_cost': cost, 'send_visible': vis,
+                              'rx_threads': True, 'msgs': ms}
+                        items.append((sc, 0))
     # (c) a second message submitted right after the n-th bus frame of the first, for every n: same pair (may be refused
     #     while the first is in progress, must be delivered if accepted), other pair of the same source, BAM / RTS-CTS mixes
     for (m1, m2) in [(msg(0x10, 'p2p', 0x20, 20), msg(0x10, 'p2p', 0x20, 15)),
